@@ -58,12 +58,28 @@ def scan_module(path):
         tags = set()
         for t in TAG_RE.findall(d['body']):
             tags.update(x.strip() for x in t.split(','))
-        # helper functions called by the harness and defined in the same file also carry tags
-        for callee in set(re.findall(r'\b(\w+)\s*(?:::<[^>]*>)?\(', d['body'])):
-            cm = re.search(r'\bfn\s+%s\b[^{;]*\{' % re.escape(callee), src)
-            if cm and callee not in res:
-                for t in TAG_RE.findall(_fn_body(src, cm.start())):
-                    tags.update(x.strip() for x in t.split(','))
+        # helper functions reachable from the harness (called in its body, or named in the macro invocation that stamps it)
+        # and defined in the same file also carry tags: transitive closure over the file's functions
+        inv0 = re.search(r'^\s*\w+!\s*\(\s*%s\s*,([^;]*?)\)\s*;' % re.escape(name), src, re.M | re.S)
+        todo = [d['body'] + (' ' + inv0.group(1) + '(' if inv0 else '')]
+        if inv0:
+            todo[0] += ' '.join(w + '(' for w in re.findall(r'\b[a-z_]\w*\b', inv0.group(1)))
+        seen_fns = set()
+        while todo:
+            text = todo.pop()
+            for t in TAG_RE.findall(text):
+                tags.update(x.strip() for x in t.split(','))
+            for callee in set(re.findall(r'\b(\w+)\s*(?:::<[^>]*>)?\(', text)):
+                if callee in seen_fns or callee in res:
+                    continue
+                cm = re.search(r'\bfn\s+%s\b[^{;]*\{' % re.escape(callee), src)
+                if cm:
+                    seen_fns.add(callee)
+                    todo.append(_fn_body(src, cm.start()))
+            for mac in set(re.findall(r'\b(\w+)!\s*[\(\[\{]', text)):
+                if mac in macros and mac not in seen_fns:
+                    seen_fns.add(mac)
+                    todo.append(macros[mac])
         bm = re.search(r'BOUNDED[^\n]*', d['pre'] + d['body'])
         any_unwind = 'kani::unwind(' in d['body'] or 'kani::unwind(' in d['pre'][-200:] or d['unwind']
         # the invocation line of a macro-stamped harness carries its bounds: `c05!(name, Type, N, unwind)`
